@@ -468,7 +468,14 @@ func Replay(t *testing.T, job Job) WorkerResult {
 	if err := json.Unmarshal(f.Scenario, sc); err != nil {
 		t.Fatal(err)
 	}
+	if dump := os.Getenv("SIM_TRACE_OUT"); dump != "" {
+		sc.GetMeta().Full = true // debugging aid: the whole choice trace and step log go to a file
+		defer func() {}()
+	}
 	out := p.Run(t, sc)
+	if dump := os.Getenv("SIM_TRACE_OUT"); dump != "" {
+		os.WriteFile(dump, []byte(strings.Join(out.Res.Trace, "\n")+"\n"), 0o644)
+	}
 	rr := &ReplayResult{Hash: fmt.Sprintf("%016x", out.Res.Hash), Trace: out.Res.Trace}
 	if v := out.Res.Violation; v != nil {
 		rr.Violated = true
